@@ -10,7 +10,7 @@ try:
         if fam == 'sender': r = g.sender(i+1, wrap=[0,0,254,255][i%4] if i%8==3 else 0)
         elif fam == 'sendertcp': r = g.sender(i+1, tcp=True)
         elif fam == 'receiver': r = g.receiver(i+1, wrap=[0,253,255][i%3] if i%5==4 else 0)
-        elif fam == 'link': r = g.link(i+1, wrap=[0,0,0,250][i%4])
+        elif fam == 'link': r = g.link(i+1, wrap=[0,0,0,257][i%4])
         elif fam == 'rt': r = g.senders_rt(i+1, reconnect=(i%2==1))
         elif fam == 'hb': r = g.heartbeat(i+1)
         elif fam == 'close': r = g.with_close([g.sender, g.receiver, g.link, g.heartbeat][i%4](i+1))
